@@ -166,6 +166,17 @@ def build_exported_typed(dendropy, am, junk):
     return parent.export_character_indices([2 * j + 1 for j in range(n)])
 
 
+def build_self_combined(dendropy, M, how, am=None):
+    """a matrix parsed from NeXML (cells carry column definitions) combined with itself"""
+    cls = type(M)
+    if how == "typed_self_concatenated":
+        return cls.concatenate([M, M])
+    if how == "typed_self_extended":
+        M.extend_matrix(M)
+        return M
+    raise ValueError(how)
+
+
 # ----------------------------------------------------------------------------- python-side rendering of source streams
 def _chunks(row, w):
     if w <= 0:
@@ -562,9 +573,9 @@ def project_nexus_blocks(text):
     """data-set level: [{"kind", "title", "link", "labels"}] for TAXA / CHARACTERS / DATA / TREES blocks"""
     out = []
     for name, stmts in nexus_statements(text):
-        if name not in ("TAXA", "CHARACTERS", "DATA", "TREES"):
+        if name not in ("TAXA", "CHARACTERS", "DATA", "TREES", "SETS"):
             continue
-        b = {"kind": "CHARACTERS" if name == "DATA" else name, "title": [], "link": [], "labels": []}
+        b = {"kind": "CHARACTERS" if name == "DATA" else name, "title": [], "link": [], "labels": [], "neg": False}
         for stmt in stmts:
             words = [x for x in stmt if x[0] != "nl"]
             if not words or words[0][0] != "w":
@@ -574,7 +585,7 @@ def project_nexus_blocks(text):
                 b["title"] = _tok_label(*words[1])
             elif head == "LINK":
                 for i, (k, v) in enumerate(words):
-                    if k == "w" and v.upper() == "TAXA" and i + 2 < len(words) and words[i + 1] == ("p", "="):
+                    if k == "w" and v.upper() == ("CHARACTERS" if name == "SETS" else "TAXA") and i + 2 < len(words) and words[i + 1] == ("p", "="):
                         b["link"] = _tok_label(*words[i + 2])
             elif head == "TAXLABELS":
                 b["labels"] = [_tok_label(*w) for w in words[1:]]
@@ -649,12 +660,12 @@ def project_nexml_blocks(text):
     out = []
     for el in root:
         if el.tag == _NX + "otus":
-            out.append({"kind": "TAXA", "title": chars(el.get("id") or ""), "link": [],
+            out.append({"kind": "TAXA", "title": chars(el.get("id") or ""), "link": [], "neg": False,
                         "labels": [chars(o.get("label") or "") for o in el.findall(_NX + "otu")]})
         elif el.tag == _NX + "characters":
-            out.append({"kind": "CHARACTERS", "title": chars(el.get("id") or ""), "link": chars(el.get("otus") or ""), "labels": []})
+            out.append({"kind": "CHARACTERS", "title": chars(el.get("id") or ""), "link": chars(el.get("otus") or ""), "labels": [], "neg": False})
         elif el.tag == _NX + "trees":
-            out.append({"kind": "TREES", "title": chars(el.get("id") or ""), "link": chars(el.get("otus") or ""), "labels": []})
+            out.append({"kind": "TREES", "title": chars(el.get("id") or ""), "link": chars(el.get("otus") or ""), "labels": [], "neg": False})
     return out
 
 
